@@ -34,7 +34,8 @@ REQUIRED_CLASSES = ['how=alter', 'how=add', 'how=remove', 'how=missing', 'how=ch
 
 
 def excluded_by_design(line, g):
-    toks = [g.tokens['user'], g.tokens['host'], g.workdir, g.home] + GC.today_tokens()
+    # (the home directory only earns a warning from gentest, not an exclusion, unless it is part of the cwd)
+    toks = [g.tokens['user'], g.tokens['host'], g.workdir] + GC.today_tokens()
     if g.tokens.get('ip'):
         toks.append(g.tokens['ip'])
     return any(t and t in line for t in toks)
@@ -59,7 +60,7 @@ def run_case(ctx, case):
     if ex is not None:
         rec.event('hook:exclusions_parsed')
         import tdda.referencetest.gentest as gt
-        allowed = set([g.tokens['user'], g.tokens['host'], g.workdir, g.home, gt.TMPDIR, g.tokens.get('ip')] + GC.today_tokens())
+        allowed = set([g.tokens['user'], g.tokens['host'], g.workdir, gt.TMPDIR, g.tokens.get('ip')] + GC.today_tokens())
         odd = [s for s in ex['substrings'] if isinstance(s, str) and s not in allowed and not s.startswith('<expr')
                and not any(t and t in s for t in allowed)
                and not re.match(r'^[\d/\-. :a-zA-Z,]+$', s)]
